@@ -86,4 +86,21 @@ def byteLengthFields : Fields → List Val → Nat
   | _, _ => 0
 end
 
+mutual
+/-- the default value of a type (simple-serialize.md "Default values"): zero, false, empty lists, zero-filled vectors -/
+def defaultVal : Ty → Val
+  | .uint _ => .num 0
+  | .bool => .bool false
+  | .bytesN n => .bytes (List.replicate n 0)
+  | .vector t n => .seq (List.replicate n (defaultVal t))
+  | .list _ _ => .seq []
+  | .bitvector n => .bits (List.replicate n false)
+  | .bitlist _ => .bits []
+  | .byteList _ => .bytes []
+  | .container fs => .seq (defaultFields fs)
+def defaultFields : Fields → List Val
+  | .nil => []
+  | .cons _ t r => defaultVal t :: defaultFields r
+end
+
 end Zrnt.SSZ
